@@ -98,6 +98,44 @@ def run_unit(A, unit, rep, tier):
                 rep.ok("C12.b", f"C12.b all {len(preds)} {tagname} predicates agree on {t}")
             else:
                 rep.fail("C12.b", norm_key("C12.b", tagname, t), f"the {tagname} predicates of validators and converters disagree on values of type {t}: {sorted(vals)}", [], tagname)
+    # (d) the merge must not treat equal values of different JSON types (1, 1.0, true) as "unchanged"
+    from ..graph import Val
+    seen_up = {}
+    for cls in A.concrete():
+        owner, v = m.lookup(cls, "_update")
+        seen_up.setdefault(v.func, cls)
+    for func, cls in seen_up.items():
+        b_, g = A.graph(cls, "_update", "root", "none")
+        rep.context(g.label, True)
+        n_short = 0
+        for n in live(g):
+            if n.kind != "branch" or len(n.stack) != 1:
+                continue
+            c = n["cond"]
+            parts = list(c.args[1:]) if (c.kind == "boolop" and c.args[0] == "and") else [c]
+            def is_value_eq(p):
+                if p.kind not in ("cmp", "cmpres") or p.args[0] != "==":
+                    return False
+                a, b = p.args[1], p.args[2]
+                from ..interp_expr import data_origin
+                da, db = data_origin(a) is not None, data_origin(b) is not None
+                pa = any(x.kind == "param" for x in a.walk()) and not da
+                pb = any(x.kind == "param" for x in b.walk()) and not db
+                return (da and pb) or (db and pa)
+
+            eqs = [p for p in parts if is_value_eq(p)]
+            if not eqs:
+                continue
+            n_short += 1
+            typed = any(p.kind == "cmp" and p.args[0] in ("is", "==") and all(x.kind == "call" and x.args[0] == "type" for x in p.args[1:3]) for p in parts)
+            if typed:
+                rep.ok("C12.d", f"C12.d {func.qualname}: the 'unchanged' shortcut `{n.stmt}` also compares the types")
+            else:
+                rep.fail("C12.d", norm_key("C12.d", func.qualname, n.stmt),
+                         f"{func.qualname}: `{n.stmt}` skips values that compare equal without comparing their types: replacing 1 by True or 1.0 (update / reset / reload) keeps the old leaf, so the stored JSON type differs from what was written",
+                         [n.where() + ": " + n.stmt], g.label)
+        if n_short == 0:
+            rep.undecided_note("C12.d", f"{func.qualname}: no equality shortcut recognised")
     # (c) codec neutrality
     n_sites = 0
     for f in m.functions:
